@@ -781,7 +781,11 @@ HASHSEED_BUDGET = {"quick": 32, "thorough": 640}
 @register("C01")
 def check_C01(tier: str, seed: int) -> int:
     v = fw.Verdict("C01", tier, seed, "proof")
-    ps = fw.ProofStatus("C01", ["Properties.C01"])
+    # the regenerated half of the tie: the iteration-site table is rewritten from /repo's source, and the
+    # theorems of Properties/C01Sites are re-checked against it
+    from . import sites as _sites
+    site_counts = _sites.regenerate(fw.LEAN_DIR)
+    ps = fw.ProofStatus("C01", ["Properties.C01", "Properties.C01Sites"])
     hl = layers.hashseed_layer(seed, HASHSEED_BUDGET[tier])
     ok1 = use_simple_layer(v, "C01", hl, "hashseed", ["C01"])
     if (not ps.ok or not ok1) and not v.violations:
@@ -789,8 +793,11 @@ def check_C01(tier: str, seed: int) -> int:
         use_simple_layer(v, "C01", big, "hashseed", ["C01"])
         v.notes.append(f"escalated search: {big['cases']} further cases")
     if not ps.ok:
-        v.broken(f"proof obligation for C01: {ps.failing_obligation()}", {"theorem_or_build": ps.failing_obligation()})
+        v.broken(f"proof obligation for C01: {ps.failing_obligation()}", {"theorem_or_build": ps.failing_obligation(),
+                 "iteration_sites_not_covered": _sites.uncovered(fw.LEAN_DIR),
+                 "how_to_replay": "./check C01 --tier quick  (regenerates lean/Hive/Gen/Sites.lean from /repo and rebuilds Properties.C01Sites)"})
     cov = fw.proof_coverage(ps)
+    cov["iteration_sites"] = site_counts
     cov["evaluations"] = hl["steps"]
     cov["distinct_nontrivial"] = len(hl["shapes"])
     cov["rule"] = ("each case is executed three times in separate interpreters with PYTHONHASHSEED = 0, 1 and a random value: (a) whole runs of the packaged denver_downtown "
@@ -806,7 +813,9 @@ def check_C01(tier: str, seed: int) -> int:
     cov["interpreter_runs"] = hl["rows"]
     cov["trusted_base"] = cov["trusted_base"] + [
         "the canonicaliser harness/seedrun.py:canon decides what 'the same' means: it sorts maps/sets, drops uuid4 tags and sorts membership lists - exactly the differences C01 allows",
-        "CPython's PYTHONHASHSEED covers str/bytes hashing; three values per case"]
+        "CPython's PYTHONHASHSEED covers str/bytes hashing; three values per case",
+        "harness/sites.py (AST extractor, about 200 lines): which expressions count as hash-ordered containers (view methods, a list of set/Map-typed field names, "
+        "set()/frozenset()/k_ring() results, local names bound to them) and how consumers are classified; the reasons given for the reviewed raw sites in Properties/C01Sites.lean are read, not proved"]
     v.coverage = cov
     v.assumptions = ["the theorems cover the model's own sequencing (sorted processing orders, order-free lookups); the setoid congruence of every model function and the "
                      "unmodelled generators/rankings/reporters are decided by the multi-interpreter runs only (PARTIAL proof)",
